@@ -242,6 +242,12 @@ def run_check(modname, tier, seed, procs=None):
     mod = importlib.import_module(modname)
     pid = mod.ID
     t0 = time.time()
+    # replay artefacts of earlier runs of this property are stale by definition
+    rdir = os.path.join(REPLAY_DIR, pid)
+    if os.path.isdir(rdir):
+        for fn in os.listdir(rdir):
+            if fn.endswith(".json"):
+                os.unlink(os.path.join(rdir, fn))
     shards = list(mod.shards(tier))
     # rotate shard order by seed: affects scheduling and printed samples only, never what is explored
     order = list(range(len(shards)))
